@@ -148,13 +148,14 @@ UniformAlphaPayload(a) == Concat([j \in 1..PerTex |-> UniformAlpha(a) \o BlockNo
 GenCases == { <<"etc1", t>> : t \in 1..NTex }
             \cup { <<"etc1a4u", a>> : a \in {0, 15, 7} }
             \cup { <<"etc1a4", t>> : t \in 1..(IF Tier = "quick" THEN 4 ELSE NTex) }
-            \cup { <<"small", f>> : f \in EtcFormats }
+            \cup { <<"small", f, cc>> : f \in EtcFormats, cc \in {"ctpk", "bch", "cgfx"} }
 
-EmitTex(f, w, h, b) ==
+EmitTexIn(cc, f, w, h, b) ==
   LET srcs == ImageSrcs(f, w, h, b) IN
-  PrintT("G " \o ToJson([api |-> "etc", fmt |-> f, w |-> w, h |-> h, payload |-> b, pal |-> <<>>,
-                        file |-> CtpkCanonHead(TName, f, w, h) \o b,
+  PrintT("G " \o ToJson([api |-> "etc", c |-> cc, fmt |-> f, w |-> w, h |-> h, payload |-> b, pal |-> <<>>,
+                        file |-> CanonHead(cc, TName, f, w, h) \o b,
                         lo |-> BoundOf(srcs, FALSE), hi |-> BoundOf(srcs, TRUE)]))
+EmitTex(f, w, h, b) == EmitTexIn("ctpk", f, w, h, b)
 Emit ==
   CASE c[1] \in {"root", "bucket"} -> TRUE
     [] c[1] = "etc1"   -> EmitTex(ETC1, Side, Side, ColourPayload(c[2]))
@@ -163,7 +164,8 @@ Emit ==
     [] c[1] = "small"  ->
          \* non-square, so that width and height cannot be confused
          LET w == 16  h == 8  n == (w \div 4) * (h \div 4) IN
-         EmitTex(c[2], w, h, IF c[2] = ETC1 THEN Concat([j \in 1..n |-> BlockNo(37 * j)])
+         \* ... and through every container that can carry the format
+         EmitTexIn(c[3], c[2], w, h, IF c[2] = ETC1 THEN Concat([j \in 1..n |-> BlockNo(37 * j)])
                              ELSE Concat([j \in 1..n |-> AlphaBytes(3 * j) \o BlockNo(37 * j)]))
 
 \* two levels, so that several workers share the cases
